@@ -6,7 +6,8 @@ from ..common import Check, coq_eval, harness, harness1
 from ..translate import gen_serde, gen_entry
 from ..programs import POOL
 from . import c15_serde as S
-from .c15_programs import COVER, ERRORS, NONFINITE, random_program, literal_edge_programs
+from .c15_programs import (COVER, ERRORS, NONFINITE, random_program, literal_edge_programs,
+                           relation_literal_programs, compute_ref_programs)
 
 TRUSTED = [
     "Coq 8.16.1 kernel (coqc, vm_compute); no axioms: every theorem is 'Closed under the global context'",
@@ -111,10 +112,13 @@ def run():
     rnd = [random_program(ck.rng) for _ in range(nrand)]
     progs = []
     edges = literal_edge_programs(ck.rng, ck.n(10, 60))
-    for p in COVER + list(POOL) + ERRORS + NONFINITE + edges + rnd:
+    rels = relation_literal_programs(ck.rng, ck.n(16, 120))
+    crefs = compute_ref_programs(ck.rng, ck.n(30, 200))
+    for p in COVER + list(POOL) + ERRORS + NONFINITE + edges + rels + crefs + rnd:
         if p not in progs:
             progs.append(p)
-    ck.coverage["program_pool"] = {"cover": len(COVER), "pool": len(POOL), "errors": len(ERRORS), "nonfinite": len(NONFINITE), "literal_edges": len(edges), "random": nrand, "distinct": len(progs)}
+    ck.coverage["program_pool"] = {"cover": len(COVER), "pool": len(POOL), "errors": len(ERRORS), "nonfinite": len(NONFINITE), "literal_edges": len(edges),
+                                   "relation_literals": len(rels), "compute_refs": len(crefs), "random": nrand, "distinct": len(progs)}
 
     # ------------------------------------------------------------------ 1. Rust-side round trip + the implementation's JSON
     jans = harness("c15_json", [{"src": p} for p in progs])
@@ -291,7 +295,7 @@ def run():
             ck.sample({"stream": "coq-model", "json": S.dumps(sample[0][2])[:300], "coq_result": "de = Some v, ser v = json"})
 
     # ------------------------------------------------------------------ 5. staged vs direct: 12 dialects x {format} x {signature}
-    sprogs = progs if ck.thorough else (COVER + list(POOL)[:20] + ERRORS + NONFINITE + edges[::3] + rnd[:40])
+    sprogs = progs if ck.thorough else (COVER + list(POOL)[:20] + ERRORS + NONFINITE + edges[::3] + rels + crefs + rnd[:40])
     seen = set(); sp = []
     for p in sprogs:
         if p not in seen:
